@@ -177,8 +177,16 @@ def run(check):
                      'self.instance_ports[(server, instance)], so a ring entry of an unconfigured instance would be returned'
                      % unparse(v))
     # diverse / dedup in the router
-    div_edge = lambda a, lab, b: isinstance(lab, tuple) and lab[0] == 'T' and 'diverse_replicas' in unparse(lab[1])   # noqa
-    nondiv_edge = lambda a, lab, b: isinstance(lab, tuple) and lab[0] == 'F' and 'diverse_replicas' in unparse(lab[1])   # noqa
+    from ..paths import mentions
+
+    def tests_diverse(a, lab):
+      """the test reads self.diverse_replicas, directly or through a local that holds it"""
+      if 'diverse_replicas' in unparse(lab[1]):
+        return True
+      t_ = vn.term(lab[1], a)
+      return mentions(t_, lambda x: isinstance(x, tuple) and x[0] == 'attr' and x[-1] == 'diverse_replicas')
+    div_edge = lambda a, lab, b: isinstance(lab, tuple) and lab[0] == 'T' and tests_diverse(a, lab)   # noqa
+    nondiv_edge = lambda a, lab, b: isinstance(lab, tuple) and lab[0] == 'F' and tests_diverse(a, lab)   # noqa
     div_only = {n for n, y in ys if n not in g.reach([g.entry], removed_edge=div_edge, normal_only=True)}
     nondiv_only = {n for n, y in ys if n not in g.reach([g.entry], removed_edge=nondiv_edge, normal_only=True)}
     mixed = [n for n, y in ys if n not in div_only and n not in nondiv_only]
